@@ -19,6 +19,7 @@ import (
 	"slices"
 
 	"cuelang.org/go/cue/token"
+	"cuelang.org/go/internal/simhook"
 )
 
 // TODO(mpvl): perhaps conjunctsProcessed is a better name for this.
@@ -242,8 +243,10 @@ func (v *Vertex) unify(c *OpContext, flags Flags) bool {
 	if mode == ignore {
 		return false
 	}
+	simhook.Yield("adt.unify")
 
 	if n := v.state; n != nil && n.ctx.opID != c.opID {
+		simhook.Probe("adt.unify:generation-mismatch")
 		// TODO: we could clear the closedness information.
 		// v.state = nil
 		// v.status = finalized
